@@ -153,7 +153,8 @@ func (t *Template) peekNonSpace() (token item) {
 // errorf formats the error and terminates processing.
 func (t *Template) errorf(format string, args ...interface{}) {
 	t.Root = nil
-	format = fmt.Sprintf("template: %s:%d: %s", t.ParseName, t.lex.lineNumber(), format)
+	// (a '%' in the template's name must not be taken for a verb of the message's format)
+	format = fmt.Sprintf("template: %s:%d: %s", strings.Replace(t.ParseName, "%", "%%", -1), t.lex.lineNumber(), format)
 	panic(fmt.Errorf(format, args...))
 }
 
